@@ -4,7 +4,7 @@ Driver entry for property C18 (model: Molli.Model.Jobmap). One request payload (
   hist <r|s> <items> <predest> <plans> <runs>
      items   = key:subs,…          subs = `-` (single job) or the number of sub-jobs
      predest = key=markerhex,… | -  (entries of the destination before the first run)
-     plans   = job=PLAN,… | -       PLAN = S | F<c> | W<c> | N<n>/<c> | O      (default S)
+     plans   = job=PLAN,… | -       PLAN = S | F<c> | W<c> | K<signal> | N<n>/<c> | O      (default S)
      runs    = tag:strict[:reset];…  strict = 1 | 0; reset = 1: the destination is replaced by an empty one before the run
   → per run, joined by ` | `:
      `ex=<executed jobs, sorted,> dest=<key=valuehex sorted,> cache=<job=code/payloadhex|- sorted,> att=<job=n,>`
@@ -33,6 +33,7 @@ def parsePlan? (s : String) : Option Plan :=
   else if s == "O" then some .omit
   else if s.startsWith "F" then (s.drop 1).toString.toNat?.map Plan.fail
   else if s.startsWith "W" then (s.drop 1).toString.toNat?.map Plan.failWrote
+  else if s.startsWith "K" then (s.drop 1).toString.toNat?.map Plan.killed
   else if s.startsWith "N" then
     match (s.drop 1).toString.splitOn "/" with
     | [n, c] => do pure (.okFrom (← n.toNat?) (← c.toNat?))
